@@ -66,5 +66,15 @@ Theorem C17_object_edges_are_source : forall e offs, stoch_edges_src e offs = st
 Proof. exact stoch_edges_is_source. Qed.
 Print Assumptions C17_object_edges_are_source.
 
+(* tie T: the transition edges between consecutive elements written over the tests REGENERATED from _add_transition_bonds (pair test, both
+   terminal tests, exclusion of a direct entry into an end group) are the model's, hence so is the whole graph of generate() *)
+Theorem C17_transition_edges_are_source : forall lhs rhs offl offr, trans_edges_src lhs rhs offl offr = trans_edges lhs rhs offl offr.
+Proof. exact trans_edges_is_source. Qed.
+Print Assumptions C17_transition_edges_are_source.
+
+Theorem C17_atom_graph_is_source : forall es, atom_graph_src es = atom_graph es.
+Proof. exact atom_graph_is_source. Qed.
+Print Assumptions C17_atom_graph_is_source.
+
 Example C17_example : fst (atom_graph leak_example) = 9%Z /\ List.length (snd (atom_graph leak_example)) = 24%nat.
 Proof. vm_compute. split; reflexivity. Qed.
